@@ -8,7 +8,7 @@ Local Open Scope N_scope.
 
 Definition only (n : nat) : deviations :=
   {| d_stale_handler := Nat.eqb n 21; d_no_alias := Nat.eqb n 23; d_dup_set := Nat.eqb n 26; d_alias_abort := Nat.eqb n 120;
-     d_start_order := Nat.eqb n 121; d_pending_zombie := Nat.eqb n 122; d_limit_kw := Nat.eqb n 123 |}.
+     d_start_order := Nat.eqb n 121; d_pending_zombie := Nat.eqb n 122; d_limit_kw := Nat.eqb n 123; d_rt_owner := Nat.eqb n 124 |}.
 
 Definition handler_gen (s : st) (k : key) : option gen := option_map fst (s_reg s k).
 Definition ref_gen (t : rst) (k : key) : option gen := option_map r_gen (ref_handler t k).
@@ -72,3 +72,11 @@ Proof. vm_compute. auto. Qed.
 
 Example outgoing_hyp : NoDup (map kw_key [mk_kw 40 4 7; mk_kw 2 2 1; mk_kw 3 4 1]).
 Proof. cbn. repeat constructor; cbn; intuition discriminate. Qed.
+
+(* D124: a function created at run time by a running function owns its service under the maker's name, so a later
+   declaration of the same service by another function of the same context is refused *)
+Theorem refuted_D124 : refuted 124.
+Proof.
+  exists false, [startup [(0, [])] []; OExec 0 [SDefRt 0 [1] DAbs]; OExec 0 [SDef 1 [1] DAbs]], [1].
+  split; vm_compute; reflexivity.
+Qed.
